@@ -11,7 +11,8 @@ from prosemirror.transform import (
 )
 from prosemirror.transform.doc_attr_step import DocAttrStep
 
-ALPHABET = ["a", "b", "c", "d", "e", " ", "x", "y", "\n", "é", "😀", "𝒳", "0", "z", "\u00a0", "\u2003"]
+# astral characters from plane 1 (four-byte UTF-8 lead byte F0), plane 14 (lead byte F3) and plane 16 (lead byte F4)
+ALPHABET = ["a", "b", "c", "d", "e", " ", "x", "y", "\n", "é", "😀", "𝒳", "0", "z", "\u00a0", "\u2003", "\U000E0067", "\U0010FFFD"]
 
 
 def gen_text(rng, lo=1, hi=6, plain=False):
